@@ -158,3 +158,26 @@ NOT_APPLICABLE = {
     'C14': 'annotate_paths is a pure function of an argument list: no state, history, fault, I/O, PRNG or '
            'aliasing for a simulator to control (DESIGN.md section 8)',
 }
+
+
+RULES = {
+    'C01': 'Histories of add_interaction / bulk helpers (all spellings) drawn by relative-position class of the new span to the pair\'s latest run (first, gap, adjacent, adjacent-to-point, overlap, same-start overlap, contained, duplicate, out-of-order), points and spans, either endpoint order, self-loops, reciprocal pairs, several pairs sharing instants, origins 0/-7/10^9, int or string ids; 30% of the runs execute commuting client programs under two schedules; slices/conversions create further live graphs and every graph is re-checked after every step.',
+    'C02': 'The C01 histories on all four class/mode combinations plus slices and conversions; after every step the sweep runs for t omitted and the instants around the operation, at the end of the run for every instant in [min-2,max+2]; nbunch forms None / single / subset with unknown member / reversed subset / one-shot iterator.',
+    'C03': 'The C01 histories; slices, conversions and the three file/JSON restarts create further live graphs (all constructors the statement lists); timelines of every graph are compared after every step; after a divergence from the model the model-free clauses continue.',
+    'C04': 'The C01 histories incl. second schedules and derived graphs; ids, per-t counts over [min-2,max+2], dict form and the average after every step on every graph.',
+    'C05': 'The C01 histories incl. second schedules and derived graphs; the whole stream is judged after every step on every graph; relational form (stream vs has_interaction) after a divergence.',
+    'C06': 'Slices (method/function, t_to given/omitted/None, windows by class: inside a run, cutting head/tail/both, exact, touching end, after end, all, none, point, inverted) and nested slices at seeded points; every slice lives on under C03/C04/C05 while the history continues on it and on its source.',
+    'C07': 'Histories on both classes and both modes in which 20-40% of the steps are rejected calls (out-of-order, missing t, bulk call with a failing element, iterable raising after k items); every failed bulk call is re-run with the failing element at every other position / the iterable failing after every other count; shadow replay at the end.',
+    'C08': 'Accumulative roots of both classes, adds with and without vanishing time, re-adds, rejected calls, commuting client programs under two schedules; read-only queries are issued before every comparison.',
+    'C09': 'Restart through write_snapshots/read_snapshots at seeded points (targets: plain/.gz/.gzip/.bz2 path, BytesIO, caller-opened handle, duck object; delimiters; encodings with non-ASCII ids; buffer sizes; short reads/writes; keys=True; occasionally >512 rows); every successful restart is re-run with each raw write failing, each raw read failing and the close failing; generated 3/4-column row files.',
+    'C10': 'As C09 for write_interactions/read_interactions, plus generated well-formed event logs (several pairs interleaved, unclosed +, noise) read in both classes.',
+    'C11': 'JSON restart at seeded points of histories with attributed/isolated nodes and graph attributes; custom id key; directed argument with/without the key, same parsed dict used twice.',
+    'C12': 'Path probes (u, v incl. None and u itself, windows inside the id range incl. ends inside gaps and before the last id, sample<1 with scheduled index subsets) on small graphs reached through histories, slices and clear().',
+    'C13': 'As C12; equality with a brute-force enumeration bounded to 6 ids / 2500 paths (larger probes skipped and counted).',
+    'C15': 'temporal_dag probes incl. invalid windows, windows ending before the last id, empty graphs, roots with self-loops.',
+    'C16': 'Conversions at seeded points (reciprocal or not, default argument) followed by nested-attribute mutations of either graph and further history on both.',
+    'C17': 'Statistics probes on reached states (spans, multi-run timelines, out-of-order insertion of pairs, states after slices and file restarts).',
+    'C18': 'Generated row lists of both formats corrupted with 11 noise kinds, 4 decorations and spelling variants, parsed directly or read from the simulated disk (plain/keys=True), converters int / lookup / Fraction; every parsed list is re-run with a non-convertible field at every row index; compact_timeslot on random sets.',
+    'C19': 'Blocked mutators/views with synthesised positional and keyword arguments, every other inherited callable/property, freeze followed by every networkx mutator, interleaved with ordinary histories on all four class/mode combinations; shadow replay.',
+    'C20': 'Conformity probes (start, delta, alphas, five path types, uniform / mixed / falsy labels, sliding) on small labelled DynGraphs reached through histories; mirror replay of the accepted history under renaming.',
+}
